@@ -43,7 +43,9 @@ def Factor.apply (stored : List (List α)) : Factor α → List (List α)
 def Fore.data (f : Fore α) : List (List α) := f.scale.apply f.stored
 
 inductive CatRegion where
-  | none | spatialOnly | full
+  /-- no region | magnitude-less, the forecast's cells in its order | magnitude-less, other cells / order (round 5) | the
+      forecast's space-magnitude region (or one that bins identically) -/
+  | none | spatialOnly | spatialOther | full
   deriving Repr, DecidableEq
 
 structure Cat where
@@ -69,6 +71,8 @@ def bindRegion (m : Mode) (r : CatRegion) : CatRegion :=
   match m, r with
   | .L, .none => .full
   | .L, .spatialOnly => .full
+  | .L, .spatialOther => .full
+  | .CL, .spatialOther => .full
   | .CL, .none => .full
   | .CL, .spatialOnly => .full
   | _, r => r
